@@ -536,11 +536,93 @@ def fast_paths_table(repo):
     return {"FastPaths.lean": {"changed": changed, "table": t}}
 
 
+def validator_registration(repo):
+    """What `support.validator`'s inner function does with a Field that already has a validator, read off the source:
+    "chain"   — the previous validator is kept and composed: somewhere in the Field branch a function is defined (def or lambda) whose
+                body calls BOTH the new function and the previous validator, the one on the result of the other, and that function is
+                what is assigned to `field.validator` when there was a previous one;
+    "replace" — `field.validator = func` unconditionally (the behaviour before F41)."""
+    mod = _parse(repo, "support.py")
+    outer = next((n for n in mod.body if isinstance(n, ast.FunctionDef) and n.name == "validator"), None)
+    if outer is None:
+        raise Unknown("support.validator not found")
+    inner = next((n for n in outer.body if isinstance(n, ast.FunctionDef)), None)
+    if inner is None or not inner.args.args:
+        raise Unknown("support.validator: no inner registration function")
+    func = inner.args.args[0].arg
+    branch = None
+    for st in inner.body:
+        if isinstance(st, ast.If) and any(isinstance(a, ast.Name) and a.id == "Field" for a in ast.walk(st.test)):
+            branch = st.body
+            break
+    if branch is None:
+        raise Unknown("support.validator: no branch for Field")
+    assigns = [n for st in branch for n in ast.walk(st) if isinstance(n, ast.Assign) and any(isinstance(t, ast.Attribute) and t.attr == "validator" for t in n.targets)]
+    if not assigns:
+        raise Unknown("support.validator: the Field branch never assigns field.validator")
+    prev_names = {t.id for st in branch for n in ast.walk(st) if isinstance(n, ast.Assign) and isinstance(n.value, ast.Attribute) and n.value.attr == "validator"
+                  for t in n.targets if isinstance(t, ast.Name)}
+
+    def is_prev(node):
+        return (isinstance(node, ast.Name) and node.id in prev_names) or (isinstance(node, ast.Attribute) and node.attr == "validator")
+
+    def composes(fn_body):
+        """new(…, previous(…)) somewhere in the body"""
+        for c in ast.walk(fn_body):
+            if isinstance(c, ast.Call) and isinstance(c.func, ast.Name) and c.func.id == func:
+                if any(isinstance(a, ast.Call) and is_prev(a.func) for arg in c.args for a in ast.walk(arg)):
+                    return True
+        return False
+    composed = set()
+    for st in branch:
+        for n in ast.walk(st):
+            if isinstance(n, ast.FunctionDef) and any(composes(b) for b in n.body):
+                composed.add(n.name)
+    plain = [a for a in assigns if isinstance(a.value, ast.Name) and a.value.id == func]
+    chained = [a for a in assigns if (isinstance(a.value, ast.Name) and a.value.id in composed) or (isinstance(a.value, ast.Lambda) and composes(a.value.body))]
+    if chained and all(_under_none_test(branch, a, prev_names) for a in plain):
+        return "chain"
+    if plain and not chained:
+        return "replace"
+    raise Unknown("support.validator: cannot tell how a second registration is combined with the first")
+
+
+def _under_none_test(branch, assign, prev_names):
+    """the plain `field.validator = func` is only reached when there was no previous validator (`if previous is None:` / `if not previous:`)"""
+    def walk(stmts, guarded):
+        for st in stmts:
+            if st is assign:
+                return guarded
+            if isinstance(st, ast.If):
+                t = st.test
+                none_test = (isinstance(t, ast.Compare) and len(t.ops) == 1 and isinstance(t.ops[0], ast.Is) and isinstance(t.comparators[0], ast.Constant)
+                             and t.comparators[0].value is None and ((isinstance(t.left, ast.Name) and t.left.id in prev_names) or (isinstance(t.left, ast.Attribute) and t.left.attr == "validator")))
+                not_test = isinstance(t, ast.UnaryOp) and isinstance(t.op, ast.Not) and ((isinstance(t.operand, ast.Name) and t.operand.id in prev_names) or
+                                                                                         (isinstance(t.operand, ast.Attribute) and t.operand.attr == "validator"))
+                r = walk(st.body, guarded or none_test or not_test)
+                if r is not None:
+                    return r
+                r = walk(st.orelse, guarded)
+                if r is not None:
+                    return r
+        return None
+    return bool(walk(branch, False))
+
+
+def registration_table(repo):
+    mode = validator_registration(repo)
+    lines = ["/- GENERATED by harness/extract.py from /repo on every run — do not edit. -/", "namespace Cinco.Generated", "",
+             "/-- what `support.validator` does with a field that already has a validator: \"chain\" (compose in registration order) or \"replace\" -/",
+             "def validatorRegistration : String := %s" % lstr(mode), "", "end Cinco.Generated"]
+    changed = _write("Registration.lean", "\n".join(lines) + "\n")
+    return {"Registration.lean": {"changed": changed, "mode": mode}}
+
+
 def run(repo):
     """regenerate every table; a table whose source the translator cannot read any more is left as it was (the last reading) and
     reported under "unreadable": the obligations over it are then not established for the current source"""
     notes = {}
-    for step in (tables, overrides, effects, stub_effects, defaults_table, fast_paths_table):
+    for step in (tables, overrides, effects, stub_effects, defaults_table, fast_paths_table, registration_table):
         try:
             notes.update(step(repo))
         except Unknown as e:
